@@ -78,10 +78,17 @@ def runMid (c : MidCase) : String :=
     let spec := b01 (Spec.leftRec c.rules)
     let alt := fun (cfg : Cfg) => match prepare cfg c.rules c.order with
       | some (_, .ok false) => "ok0" | some (_, .ok true) => "ok1" | some (_, .noLeader) => "noleader" | none => "oof"
+    -- the graph of the independent specification (on the grammar as given: it does not look at flags)
+    let sg := Spec.specGraph c.rules
+    let sverts := sortStrings (sg.map (·.1))
+    let sedges := sverts.map (fun v =>
+      let ss := sortStrings (succs sg v)
+      " ".intercalate ([hexOfString v, toString ss.length] ++ ss.map hexOfString))
     " ".intercalate (["midres", toString c.id, vs, toString G.length] ++ rules ++
       [toString verts.length] ++ edges ++ ["spec", spec,
        alt { currentCfg with choiceVisitAll := true }, alt { currentCfg with plusNullable := true },
-       alt { currentCfg with choiceVisitAll := true, plusNullable := true }])
+       alt { currentCfg with choiceVisitAll := true, plusNullable := true },
+       "sg", toString sverts.length] ++ sedges)
 
 end MidProtocol
 end PV
